@@ -246,6 +246,12 @@ def cases(ctx):
             for side in ('long', 'short'):
                 for where in ('short-of', 'touch'):
                     yield (L, side, False, where, 1, None, 'futures', 'isolated', False, emb)
+    for sc in core.SCALES:      # micro-priced and very expensive symbols
+        for L in (2, 25):
+            for side in ('long', 'short'):
+                for where in ('short-of', 'touch', 'cross'):
+                    for fast in (False, True):
+                        yield (L, side, False, where, 1, None, 'futures', 'isolated', fast, sc)
     for L in (2, 25):
         for side in ('long', 'short'):
             for where in ('touch', 'cross', 'gap-over'):
